@@ -25,12 +25,21 @@ Theorem C32_remap_file : forall old new comps,
   remap_path (abs old) (abs new) (file_loc (old ++ comps)) = Some (file_loc (new ++ comps)).
 Proof. exact remap_path_file. Qed.
 
-(* there and back restores the original string *)
-Theorem C32_roundtrip_file : forall old new comps,
+(* there and back restores the original string.
+   _partial: only for the canonical spelling [file_loc] = "file://" ++ quote path (what StreamFlow's get_file_token
+   builds); another spelling of the same location (raw blank, lower-case hex, %7E for ~) comes back as the
+   canonical one, see C32_noncanonical_location_refuted *)
+Theorem C32_roundtrip_file_partial : forall old new comps,
   forallb good old = true -> forallb good new = true -> forallb good comps = true -> comps <> [] ->
   exists p', remap_path (abs old) (abs new) (file_loc (old ++ comps)) = Some p' /\
              remap_path (abs new) (abs old) p' = Some (file_loc (old ++ comps)).
 Proof. exact roundtrip_file. Qed.
+Theorem C32_noncanonical_location_refuted :
+  remap_path "/old" "/new" "file:///old/a b" = Some "file:///new/a%20b" /\
+  remap_path "/new" "/old" "file:///new/a%20b" = Some "file:///old/a%20b" /\
+  remap_path "/old" "/new" "file:///old/%7et%c3%a9" = Some "file:///new/~t%C3%A9" /\
+  remap_path "/new" "/old" "file:///new/~t%C3%A9" = Some "file:///old/~t%C3%A9".
+Proof. vm_compute. repeat split; reflexivity. Qed.
 (* _partial: a plain path must not contain ":/" (a component ending in ':'), before or after the move:
    remap_path takes such a path for a URL and returns it unchanged (see C32_colon_slash_refuted) *)
 Theorem C32_roundtrip_plain_partial : forall old new comps,
@@ -61,6 +70,16 @@ Theorem C32_value_roundtrip : forall old new v v',
   (forall s, In s (fs_v v) -> forall s', remap_path old new s = Some s' -> remap_path new old s' = Some s) ->
   remap_token_value new old v' = Some v.
 Proof. exact token_value_roundtrip. Qed.
+(* composed with the path theorems: a value all of whose file strings are plain paths below old_dir (without ":/"),
+   canonical file:// locations below old_dir, or URLs of another scheme, is restored exactly.
+   _partial: the domain [in_domain] excludes ":/" inside plain paths and non-canonical location spellings; the
+   forward remap is assumed to succeed (it fails only on non-string location/path or non-list secondaryFiles/listing) *)
+Theorem C32_value_roundtrip_in_domain_partial : forall old new v v',
+  forallb good old = true -> forallb good new = true ->
+  remap_token_value (abs old) (abs new) v = Some v' ->
+  (forall s, In s (fs_v v) -> in_domain old new s) ->
+  remap_token_value (abs new) (abs old) v' = Some v.
+Proof. exact value_roundtrip_in_domain. Qed.
 (* atoms and strings that are not a location/path of a File/Directory are never touched *)
 Theorem C32_non_file_unchanged : forall rp v,
   match v with JAtom _ | JStr _ => remap_v rp v = Some v | _ => True end.
@@ -93,7 +112,9 @@ Proof. split; [vm_compute; reflexivity|]. eexists. repeat split; vm_compute; ref
 Print Assumptions C32_unquote_quote.
 Print Assumptions C32_remap_plain.
 Print Assumptions C32_remap_file.
-Print Assumptions C32_roundtrip_file.
+Print Assumptions C32_roundtrip_file_partial.
+Print Assumptions C32_noncanonical_location_refuted.
+Print Assumptions C32_value_roundtrip_in_domain_partial.
 Print Assumptions C32_roundtrip_plain_partial.
 Print Assumptions C32_colon_slash_refuted.
 Print Assumptions C32_other_schemes_unchanged.
